@@ -367,6 +367,12 @@ func init() {
 	ops.Calls["update-pillar"] = func(o ops.Op) *nom.AccountBlock {
 		return &nom.AccountBlock{BlockType: nom.BlockTypeUserSend, Address: ops.Users[o.A].Address, ToAddress: types.PillarContract, TokenStandard: types.ZnnTokenStandard, Amount: big.NewInt(0), Data: definition.ABICommon.PackMethodPanic(definition.UpdateMethodName)}
 	}
+	ops.Calls["pillar-percentages"] = func(o ops.Op) *nom.AccountBlock {
+		pct := [][2]uint8{{10, 90}, {100, 200}, {255, 100}}[o.B]
+		u := ops.Users[o.A].Address // users 10..12 own pillars 1..3 and are their producer and reward addresses
+		return &nom.AccountBlock{BlockType: nom.BlockTypeUserSend, Address: u, ToAddress: types.PillarContract, TokenStandard: types.ZnnTokenStandard, Amount: big.NewInt(0),
+			Data: definition.ABIPillars.PackMethodPanic(definition.UpdatePillarMethodName, []string{"TEST-pillar-1", "TEST-pillar-cool", "TEST-pillar-znn"}[o.A-10], u, u, pct[0], pct[1])}
+	}
 	ops.Calls["update-sentinel"] = func(o ops.Op) *nom.AccountBlock {
 		return &nom.AccountBlock{BlockType: nom.BlockTypeUserSend, Address: ops.Users[o.A].Address, ToAddress: types.SentinelContract, TokenStandard: types.ZnnTokenStandard, Amount: big.NewInt(0), Data: definition.ABICommon.PackMethodPanic(definition.UpdateMethodName)}
 	}
@@ -472,6 +478,20 @@ func outageBases() []hx.Base {
 		{K: "Call", S: "stake", A: 1, V: 10, B: 1}, {K: "Call", S: "sentinel-deposit-qsr", A: 5, V: 50000}, M, M, M, M,
 		{K: "Call", S: "sentinel-register", A: 5}, M, M, {K: "M", V: 139},
 	}}}
+}
+
+// percentageAlphabet: a pillar owner changes the reward percentages of its pillar (valid values, and values above 100 that
+// send-time validation must refuse) around an epoch end; what the pillar contract credits for the epoch stays within
+// the contract's share whatever the owner asked for
+func percentageAlphabet() []ops.Op {
+	return []ops.Op{M, {K: "M3"},
+		{K: "Call", S: "pillar-percentages", A: 10, B: 0}, // 10 / 90
+		{K: "Call", S: "pillar-percentages", A: 10, B: 1}, // 100 / 200: delegates would get twice the delegation reward
+		{K: "Call", S: "pillar-percentages", A: 10, B: 2}, // 255 / 100
+		{K: "Call", S: "update-pillar", A: 3},
+		{K: "Call", S: "pillar-collect", A: 10},
+		{K: "Call", S: "pillar-collect", A: 0}, // a delegator of pillar 1
+	}
 }
 
 func outageAlphabet() []ops.Op {
@@ -644,6 +664,11 @@ func runChecked(c *xs.Ctx, r *xs.Result) {
 		eo := *e
 		eo.Bases, eo.Alphabet = outageBases(), outageAlphabet()
 		eo.Run()
+	}
+	if !r.Incomplete {
+		ep := *e
+		ep.Bases, ep.Alphabet = bases()[1:2], percentageAlphabet() // from "before-first-epoch-end"
+		ep.Run()
 	}
 	if c.Thorough() && !r.Incomplete {
 		e2 := *e
